@@ -25,6 +25,7 @@ type c08Case struct {
 	V2      bool   `json:"v2"`
 	Removed string `json:"removed,omitempty"`   // builtin removed from both tables
 	NoCheck string `json:"nocheck,omitempty"`   // builtin removed from the check table only
+	NoCall  string `json:"nocall,omitempty"`    // builtin removed from the call table only (a checker without an implementation)
 	Lo      int    `json:"offender_start"`      // byte extent of the offender, -1 = program is valid
 	Hi      int    `json:"offender_end"`
 	Recheck bool   `json:"recheck,omitempty"` // load, then the exported Check under another table
@@ -200,6 +201,13 @@ func c08Contexts() []c08Ctx {
 		{"map-key", one(func(e *rt.Node) *rt.Node { return rt.Assign("=", Id("x"), rt.Map(e, I(1))) })},
 		{"map-value", one(func(e *rt.Node) *rt.Node { return rt.Assign("=", Id("x"), rt.Map(S("k"), e)) })},
 		{"map-second-value", one(func(e *rt.Node) *rt.Node { return rt.Assign("=", Id("x"), rt.Map(S("k"), I(1), S("j"), e)) })},
+		// a literal that spells one key twice: both value expressions are part of the script
+		{"map-value-of-a-key-spelled-again-later", one(func(e *rt.Node) *rt.Node { return rt.Assign("=", Id("x"), rt.Map(S("k"), e, S("j"), I(2), S("k"), I(3))) })},
+		{"map-value-of-a-key-spelled-before", one(func(e *rt.Node) *rt.Node { return rt.Assign("=", Id("x"), rt.Map(S("k"), I(1), S("k"), e)) })},
+		{"nested-map-value-of-a-repeated-key", one(func(e *rt.Node) *rt.Node {
+			return rt.Assign("=", Id("x"), rt.List(rt.Map(S("k"), rt.Map(S("q"), e, S("q"), I(0)), S("k"), I(1))))
+		})},
+		{"list-element-repeated", one(func(e *rt.Node) *rt.Node { return rt.Assign("=", Id("x"), rt.List(I(1), e, I(1), I(1))) })},
 		{"index-1", one(func(e *rt.Node) *rt.Node { return rt.Assign("=", Id("x"), rt.Index("a", e)) })},
 		{"index-2", one(func(e *rt.Node) *rt.Node { return rt.Assign("=", Id("x"), rt.Index("a", I(0), e)) })},
 		{"index-3", one(func(e *rt.Node) *rt.Node { return rt.Call("p", rt.Index("a", I(0), S("k"), e)) })},
@@ -331,6 +339,7 @@ type c08Loader struct {
 	v2      bool
 	removed string
 	nocheck string
+	nocall  string
 	call    map[string]plrt.FuncCall
 	check   map[string]plrt.FuncCheck
 }
@@ -345,6 +354,12 @@ func newC08Loader(v2 bool, removed, nocheck string) *c08Loader {
 	if nocheck != "" {
 		delete(l.check, nocheck)
 	}
+	return l
+}
+
+func (l *c08Loader) withoutCall(name string) *c08Loader {
+	l.nocall = name
+	delete(l.call, name)
 	return l
 }
 
@@ -365,7 +380,7 @@ func c08Try(w *run.Worker, l *c08Loader, part string, stmts []*rt.Node, offender
 	src, _ := rt.PrintProg(stmts, nil)
 	w.Eval()
 	err := l.load(src)
-	cs := c08Case{Source: src, V2: l.v2, Removed: l.removed, NoCheck: l.nocheck, Lo: -1, Hi: -1}
+	cs := c08Case{Source: src, V2: l.v2, Removed: l.removed, NoCheck: l.nocheck, NoCall: l.nocall, Lo: -1, Hi: -1}
 	tag := "v1"
 	if l.v2 {
 		tag = "v2"
@@ -666,12 +681,15 @@ func c08Run(w *run.Worker) {
 	c08Recheck(w, rules, ctxs)
 	// ---- function tables: each builtin removed in turn / call entry without check entry
 	for _, r := range rules {
-		for variant := 0; variant < 2; variant++ {
+		for variant := 0; variant < 3; variant++ {
 			var ld *c08Loader
-			if variant == 0 {
+			switch variant {
+			case 0:
 				ld = newC08Loader(false, r.Name, "")
-			} else {
+			case 1:
 				ld = newC08Loader(false, "", r.Name)
+			default:
+				ld = newC08Loader(false, "", "").withoutCall(r.Name)
 			}
 			for ci, c := range ctxs {
 				if ci%5 != 0 && !w.Thorough {
@@ -684,7 +702,7 @@ func c08Run(w *run.Worker) {
 					continue
 				}
 				e := r.validCall(r.Min)
-				c08Try(w, ld, c.Name, c.Build(e), e, []string{"removed-", "no-check-entry-"}[variant]+r.Name)
+				c08Try(w, ld, c.Name, c.Build(e), e, []string{"removed-", "no-check-entry-", "no-call-entry-"}[variant]+r.Name)
 			}
 			// an unrelated valid program still loads
 			if w.Take() {
@@ -936,6 +954,9 @@ func c08Replay(raw json.RawMessage) (bool, string) {
 		return c08RecheckReplay(c)
 	}
 	l := newC08Loader(c.V2, c.Removed, c.NoCheck)
+	if c.NoCall != "" {
+		l.withoutCall(c.NoCall)
+	}
 	err := l.load(c.Source)
 	if _, ok := err.(*drv.LoadPanic); ok {
 		return true, err.Error()
